@@ -59,6 +59,10 @@ type Dir struct {
 	Points bool
 	// Violations of the handle discipline noticed by the device itself.
 	Problems []string
+	// Needed, when set, returns the file names that must not be removed right
+	// now (segments of the writer's root and of readers held by the harness); a
+	// successful Remove of such a name is recorded as a problem.
+	Needed func() []string
 	// Poison closed handles.
 	Poison bool
 	Stamp  func() int
@@ -258,6 +262,13 @@ func (d *Dir) Remove(kind string, id uint64) error {
 		return fmt.Errorf("remove %s: resource temporarily unavailable", name)
 	}
 	_, had := d.Files[name]
+	if had && d.Needed != nil {
+		for _, n := range d.Needed() {
+			if n == name {
+				d.Problems = append(d.Problems, "removed "+name+" while the writer's root or a held reader still refers to it")
+			}
+		}
+	}
 	delete(d.Files, name)
 	d.rec(Event{Kind: "remove", Name: name, HadOld: had})
 	return nil
